@@ -7,8 +7,10 @@ import (
 	"fmt"
 	"io"
 	"os/exec"
+	"sort"
 	"strconv"
 	"strings"
+	"sync"
 	"sync/atomic"
 	"time"
 )
@@ -31,6 +33,7 @@ const preamble = `(set-option :produce-models true)
 `
 
 type Solver struct {
+	server    bool
 	oneshot   bool
 	timeoutMs int
 	name      string
@@ -48,9 +51,67 @@ var solverStats struct {
 	queries, nanos, unknowns int64
 }
 
+type stageStat struct{ n, nanos, unknown int64 }
+
+var (
+	stageMu    sync.Mutex
+	stageStats = map[string]*stageStat{}
+)
+
+func noteStage(name string, d time.Duration, r Result) {
+	stageMu.Lock()
+	st := stageStats[name]
+	if st == nil {
+		st = &stageStat{}
+		stageStats[name] = st
+	}
+	st.n++
+	st.nanos += d.Nanoseconds()
+	if r == Unknown {
+		st.unknown++
+	}
+	stageMu.Unlock()
+}
+
+func stageSummary() string {
+	stageMu.Lock()
+	defer stageMu.Unlock()
+	var parts []string
+	for name, st := range stageStats {
+		parts = append(parts, fmt.Sprintf("%s: %d queries %.1fs (%.0f ms avg) %d unknown", name, st.n, float64(st.nanos)/1e9, float64(st.nanos)/1e6/float64(st.n), st.unknown))
+	}
+	sort.Strings(parts)
+	return strings.Join(parts, "; ")
+}
+
 func newSolver(kind string, timeoutMs int) (*Solver, error) {
 	var cmd *exec.Cmd
 	switch kind {
+	case "z3new-s", "z3-s":
+		// persistent process used as a server: every query is self-contained
+		// between push and pop (no state is shared between queries)
+		bin := "z3-new"
+		if kind == "z3-s" {
+			bin = "z3"
+		}
+		cmd = exec.Command(bin, "-in", "-t:"+strconv.Itoa(timeoutMs))
+		in, err := cmd.StdinPipe()
+		if err != nil {
+			return nil, err
+		}
+		out, err := cmd.StdoutPipe()
+		if err != nil {
+			return nil, err
+		}
+		cmd.Stderr = cmd.Stdout
+		if err := cmd.Start(); err != nil {
+			return nil, err
+		}
+		sv := &Solver{name: kind, cmd: cmd, in: in, out: bufio.NewReaderSize(out, 1<<16), server: true, timeoutMs: timeoutMs}
+		if _, err := sv.roundTrip(preamble); err != nil {
+			return nil, err
+		}
+		return sv, nil
 	case "cvc5-1", "z3-1", "z3new-1":
 		// one process per query: the solvers start in 10-30 ms and cvc5 decides
 		// more queries outside incremental mode
@@ -453,4 +514,30 @@ func parseValues(txt string, terms []*Term) (map[string]sexp, error) {
 		res[terms[i].key] = pair.list[1]
 	}
 	return res, nil
+}
+
+// runServer runs a self-contained query on a persistent solver process.
+func (s *Solver) runServer(script string) (Result, error) {
+	t0 := time.Now()
+	lines, err := s.roundTrip("(push 1)\n" + script + "(check-sat)\n(pop 1)")
+	atomic.AddInt64(&solverStats.queries, 1)
+	atomic.AddInt64(&solverStats.nanos, time.Since(t0).Nanoseconds())
+	if err != nil {
+		return Unknown, err
+	}
+	for _, l := range lines {
+		if strings.Contains(l, "(error") {
+			return Unknown, fmt.Errorf("solver %s: %s\n  in: %s", s.name, l, truncate(script, 3000))
+		}
+	}
+	for _, l := range lines {
+		switch strings.TrimSpace(l) {
+		case "sat":
+			return Sat, nil
+		case "unsat":
+			return Unsat, nil
+		}
+	}
+	atomic.AddInt64(&solverStats.unknowns, 1)
+	return Unknown, nil
 }
